@@ -307,7 +307,34 @@ func checkF15(c *Ctx, r *Report) {
 			expFns = append(expFns, fn)
 		}
 	}
-	r.Floor("F15-mapping", expandCalls, 20)
+	// ... and the methods of *Config that reach one of them (helpers that
+	// only delegate)
+	for grew := true; grew; {
+		grew = false
+		in := map[*ssa.Function]bool{}
+		for _, f := range expFns {
+			in[f] = true
+		}
+		for _, fn := range c.ModFuncs {
+			if in[fn] || fn.Signature.Recv() == nil || !types.Identical(fn.Signature.Recv().Type(), cfgPtr) {
+				continue
+			}
+			calls := false
+			forEachInstr(fn, func(i2 ssa.Instruction) {
+				if call, ok := i2.(ssa.CallInstruction); ok {
+					if sc := call.Common().StaticCallee(); sc != nil && in[sc] {
+						calls = true
+					}
+				}
+			})
+			// only the expansion family: named like it or called from it
+			if calls && calledFromAny(fn, in) {
+				expFns = append(expFns, fn)
+				grew = true
+			}
+		}
+	}
+	r.Floor("F15-mapping", expandCalls, 10)
 	if len(expFns) == 0 {
 		r.Unresolved("expansion function", "no method of *Config calls os.Expand")
 		return
@@ -325,7 +352,32 @@ func checkF15(c *Ctx, r *Report) {
 			switch x := in.(type) {
 			case *ssa.Store:
 				p, root := addrPath(x.Addr)
-				if root == nil || !types.Identical(root.Type(), cfgPtr) {
+				if root == nil {
+					return
+				}
+				if !types.Identical(root.Type(), cfgPtr) {
+					// a helper working on a part of the configuration handed to
+					// it by pointer: the path continues the call sites' argument
+					prm, isPrm := root.(*ssa.Parameter)
+					if !isPrm {
+						return
+					}
+					idx := -1
+					for i, q := range fn.Params {
+						if q == prm {
+							idx = i
+						}
+					}
+					for _, cs := range pa.callSites(fn) {
+						if idx < 0 || idx >= len(cs.Common().Args) {
+							continue
+						}
+						pre, r2 := addrPath(cs.Common().Args[idx])
+						if r2 == nil || pre == "" || !types.Identical(r2.Type(), cfgPtr) {
+							continue
+						}
+						stores[pre+"."+p] = append(stores[pre+"."+p], storeInfo{x, fn, relProv(pa.Of(x.Val), rootTypeName(root.Type()), "Info."+strings.TrimPrefix(pre, "Info."))})
+					}
 					return
 				}
 				stores[p] = append(stores[p], storeInfo{x, fn, pa.Of(x.Val)})
@@ -437,7 +489,27 @@ func checkF15(c *Ctx, r *Report) {
 					}
 				}
 				if call, ok := st.Val.(*ssa.Call); ok && call.Call.StaticCallee() != nil {
-					found = true
+					// the block written must be one of the override blocks: the
+					// map element itself, or a helper's parameter that some call
+					// site binds to the map element
+					switch base := fa.X.(type) {
+					case *ssa.Parameter:
+						idx := -1
+						for i, q := range fn.Params {
+							if q == base {
+								idx = i
+							}
+						}
+						for _, cs := range pa.callSites(fn) {
+							if idx >= 0 && idx < len(cs.Common().Args) {
+								if _, isLookup := cs.Common().Args[idx].(*ssa.Lookup); isLookup {
+									found = true
+								}
+							}
+						}
+					default:
+						found = true
+					}
 				}
 			})
 		}
@@ -487,34 +559,65 @@ func checkF15(c *Ctx, r *Report) {
 		{"Info.Overridables.RPM.Signature.PackageSignature.KeyPassphrase", "$NFPM_RPM_PASSPHRASE"},
 		{"Info.Overridables.APK.Signature.PackageSignature.KeyPassphrase", "$NFPM_APK_PASSPHRASE"},
 	} {
-		var general, specific *ssa.Store
-		for _, s := range stores[fm.field] {
-			if s.st == nil {
-				continue
-			}
-			cs := s.prov.consts()
-			for _, k := range cs {
-				if k == "$NFPM_PASSPHRASE" {
-					general = s.st
-				}
-				if k == fm.env {
-					specific = s.st
+		// decided by evaluating the expansion function under a modelled
+		// environment: general variable = "G", the format's own variable
+		// empty or "S"; the value the field ends up with must be "G" / "S"
+		var top *ssa.Function
+		for _, si := range stores[fm.field] {
+			if si.st != nil {
+				top = si.fn
+				for top.Parent() != nil {
+					top = top.Parent()
 				}
 			}
 		}
-		ok := general != nil && specific != nil
-		why := "both the general and the format-specific variable must be assigned"
+		ok := top != nil
+		why := "the expansion function never assigns this field"
 		if ok {
-			// specific store guarded by non-emptiness of its own value, after the general one
-			guarded := false
-			// the store must depend on that test alone: it sits in the block
-			// entered directly (and only) from the non-empty edge
-			if fail := nilOrEmptyTestEdge(specific.Val); fail != nil && fail == specific.Block() && len(fail.Preds) == 1 {
-				guarded = true
+			var parts []string
+			for _, cell := range []struct{ spec, want string }{{"", "G"}, {"S", "S"}} {
+				ev := newEvaluator(c)
+				ev.MaxDepth = 3
+				ev.Expand = map[string]AV{"$NFPM_PASSPHRASE": cStr("G"), fm.env: cStr(cell.spec)}
+				fr := ev.Explore(top, make([]AV, len(top.Params)))
+				type liveStore struct {
+					st  *ssa.Store
+					val AV
+				}
+				var live []liveStore
+				for _, li := range fr.LiveInstrs() {
+					st, isSt := li.In.(*ssa.Store)
+					if !isSt {
+						continue
+					}
+					if p, root := addrPath(st.Addr); root != nil && p == fm.field && types.Identical(root.Type(), cfgPtr) {
+						live = append(live, liveStore{st, li.F.Eval(st.Val)})
+					}
+				}
+				// final stores: not followed (dominated-after) by another live store
+				got := map[string]bool{}
+				for _, a := range live {
+					overwritten := false
+					for _, b := range live {
+						if a.st != b.st && a.st.Parent() == b.st.Parent() && instrDominates(a.st, b.st) {
+							overwritten = true
+						}
+					}
+					if overwritten {
+						continue
+					}
+					if sv, isStr := avStr(a.val); isStr {
+						got[sv] = true
+					} else {
+						got["?"] = true
+					}
+				}
+				if len(got) != 1 || !got[cell.want] {
+					ok = false
+				}
+				parts = append(parts, fmt.Sprintf("with %s=%q and $NFPM_PASSPHRASE=\"G\" the field ends up as {%s}, expected %q", fm.env, cell.spec, joinSorted(got), cell.want))
 			}
-			after := instrDominates(general, specific)
-			ok = guarded && after
-			why = fmt.Sprintf("general assignment first (%v), then the specific one only when non-empty (%v)", after, guarded)
+			why = strings.Join(parts, "; ")
 		}
 		r.Check(ok, "F15-passphrase", "passphrase precedence for "+fm.env, "-", why)
 	}
@@ -667,4 +770,31 @@ func checkListHelper(c *Ctx, r *Report, expFns []*ssa.Function) {
 		return
 	}
 	r.Unresolved("list expansion helper", "no method of *Config with signature func([]string) []string calls os.Expand")
+}
+
+// relProv re-roots atoms "<T>.<path>" of a helper that works on a part of the
+// configuration at "<prefix>.<path>".
+func relProv(p provSet, typeName, prefix string) provSet {
+	out := provSet{}
+	for a := range p {
+		if typeName != "" && strings.HasPrefix(a, typeName+".") {
+			out[prefix+"."+strings.TrimPrefix(a, typeName+".")] = true
+		} else {
+			out[a] = true
+		}
+	}
+	return out
+}
+
+// calledFromAny: fn has a static call site inside one of the given functions.
+func calledFromAny(fn *ssa.Function, set map[*ssa.Function]bool) bool {
+	found := false
+	for g := range set {
+		forEachInstr(g, func(in ssa.Instruction) {
+			if call, ok := in.(ssa.CallInstruction); ok && call.Common().StaticCallee() == fn {
+				found = true
+			}
+		})
+	}
+	return found
 }
